@@ -85,7 +85,7 @@ func blockerFrameName(t string) string {
 
 // Case is one program of the space (JSON: the replay contract).
 type Case struct {
-	Family string   `json:"family"`        // tail | blocked | transparency-only | multiform | sequence | chain | closure
+	Family string   `json:"family"`        // tail | blocked | transparency-only | multiform | sequence | chain | closure | forward
 	Def    string   `json:"def,omitempty"` // "" (top-level defun) | labels (the loop is a set of labels-bound closures)
 	Shape  []string `json:"shape"`         // outermost first
 	Topo   int      `json:"topo"`          // cycle length 1..3
@@ -113,6 +113,9 @@ type Case struct {
 	// Args is the parameter style (req | opt | rest | key).
 	Carry   string `json:"carry,omitempty"`   // collect | cps | return | prev
 	Capture string `json:"capture,omitempty"` // counter | data : the parameter the closure captures
+	// forward family only: the recursive call is made THROUGH a call-forwarding
+	// builtin passed as the target of funcall/apply (see forwardForms).
+	Forward string `json:"forward,omitempty"`
 	// chain family only: Chain names the explored dimension for the class,
 	// "nest:<token>" (Shape is <token> repeated d times, or the 15 positions in
 	// rotation for "mixed") or "ring:<wrapper>" (Topo functions in a ring, each
@@ -144,6 +147,9 @@ func (c Case) tokens() []string {
 	}
 	if c.Family == "closure" {
 		t = append(t, "CLOS-"+c.Carry)
+	}
+	if c.Family == "forward" {
+		t = append(t, "FWD-"+c.Forward)
 	}
 	return append(t, c.Shape...)
 }
@@ -360,6 +366,9 @@ func recursive(c Case, k int) (rec string, macroBody string) {
 	lv := levelVars(c)
 	d := len(c.Shape)
 	f := callForm(c, k, lv[d])
+	if c.Forward != "" {
+		f = forwardForm(c, f)
+	}
 	for i := d - 1; i >= 0; i-- {
 		if c.Shape[i] == "MACRO-BODY" {
 			macroBody = f.String()
@@ -903,4 +912,52 @@ func sourceWalk(c Case) string {
 	}
 	b.WriteString(run + "\n")
 	return b.String()
+}
+
+// ---------------------------------------------------------------------------
+// forward family: call-forwarding builtins as TARGETS.  funcall, apply and
+// unpack forward a call in tail position, so a tail loop whose recursive call
+// is (funcall 'apply 'f (list ..)) etc. must still run in constant stack.
+
+var forwardForms = []string{
+	"funcall-apply-sym", "funcall-apply-val", "funcall-funcall-sym", "funcall-funcall-val",
+	"funcall-unpack-sym", "funcall-unpack-val", "apply-funcall-sym", "apply-apply-sym", "apply-unpack-val",
+	"funcall-computed-apply", "funcall-funcall-apply", "funcall-apply-funcall",
+}
+
+func forwardForm(c Case, call form) form {
+	ref := "'" + call.head
+	if c.Def == "labels" {
+		ref = call.head
+	}
+	lst := "(list " + strings.Join(call.args, " ") + ")"
+	mk := func(head string, args ...string) form { return form{head: head, args: args, fn: true, tail: -1} }
+	flat := func(pre ...string) []string { return append(pre, call.args...) }
+	switch c.Forward {
+	case "funcall-apply-sym":
+		return mk("funcall", "'apply", ref, lst)
+	case "funcall-apply-val":
+		return mk("funcall", "apply", ref, lst)
+	case "funcall-funcall-sym":
+		return mk("funcall", flat("'funcall", ref)...)
+	case "funcall-funcall-val":
+		return mk("funcall", flat("funcall", ref)...)
+	case "funcall-unpack-sym":
+		return mk("funcall", "'unpack", ref, lst)
+	case "funcall-unpack-val":
+		return mk("funcall", "unpack", ref, lst)
+	case "apply-funcall-sym":
+		return mk("apply", "'funcall", ref, lst)
+	case "apply-apply-sym":
+		return mk("apply", "'apply", ref, "(list "+lst+")")
+	case "apply-unpack-val":
+		return mk("apply", "unpack", ref, "(list "+lst+")")
+	case "funcall-computed-apply":
+		return mk("funcall", "(car (list apply))", ref, lst)
+	case "funcall-funcall-apply":
+		return mk("funcall", "'funcall", "'apply", ref, lst)
+	case "funcall-apply-funcall":
+		return mk("funcall", "'apply", "'funcall", "(list "+strings.Join(flat(ref), " ")+")")
+	}
+	panic("harness: forward form " + c.Forward)
 }
